@@ -37,3 +37,9 @@ package pool
 //@ func ReleaseBR1K(br *bufio.Reader)
 //@   trusted
 //@   modifies nothing
+
+// Go runs fn on a pooled goroutine (gopool): for the caller it is a "go fn()"
+//@ func Go(fn func())
+//@   trusted
+//@   spawns fn
+//@   modifies nothing
